@@ -174,6 +174,9 @@ structure OState where
   live : Bool := false
   /-- the options payload the implementation reported last (for the clauses that hold in every state) -/
   pl : Option Bytes := none
+  /-- two present words, the first announcing a radiotap namespace, the second's fields well aligned behind the
+      first's: those fields and the bytes behind them (`decodeLayout2`) -/
+  last : Option (List (Nat × Bytes) × Bytes) := none
 
 def kv (ws : List String) (key : String) : Option String :=
   ws.findSome? (fun w => if w.startsWith (key ++ "=") then some ((w.drop (key.length + 1)).toString) else none)
@@ -265,6 +268,28 @@ def checkLive (F : Frame) (oldPl : Option Bytes) (m : FMap) (out : String) : Str
                 else s!"violates later-namespace-fields expected={toHex (enc S fk newOff ++ F.tail.drop e.length)} got={toHex F'.tail}"
               | none => "unspecified"
             | _, _ => s!"violates later-namespace-bytes expected={toHex F.tail} got={toHex F'.tail}"
+
+/-- state line of a header with two radiotap namespaces (`setters_two_words`): the payload is the two-word layout of the
+    last-write map over the first word's fields, the second word's fields re-aligned with their values, the rest
+    unchanged; every getter returns the first word's value, else the second word's -/
+def checkTwo (F : Frame) (fsK : List (Nat × Bytes)) (rest : Bytes) (m : FMap) (out : String) : String :=
+  let ow := words out
+  if out.startsWith "throw" then s!"violates no-throw {out}" else
+  let mK := mapOfList fsK
+  let mm : FMap := fun g => match m g with
+    | some v => some v
+    | none => mK g
+  let c := lay2 S F (fieldList S m) fsK rest
+  let exps := [("pl", toHex c), ("hs", toString (4 + c.length)), ("tr", toString (trailerOfMap mm))] ++
+    (getterExpectations mm).map (fun e => (e.1, e.2.2))
+  match exps.find? (fun e => kv ow e.1 != some e.2) with
+  | some e => s!"violates {e.1} expected={e.2} got={(kv ow e.1).getD "missing"}"
+  | none =>
+    match ((kv ow "pr").getD "x").toNat? with
+    | some w =>
+      let dom := presentWord (fieldList S m) ||| presentWord fsK
+      if w % 2 ^ S.max == dom then "ok" else s!"violates pr-table-bits expected={dom} got={w}"
+    | none => "violates pr expected=a-number"
 
 /-- `ser` in a state whose last-write map is known and whose frame is inert -/
 def checkSer (o : OState) (m : FMap) (inner : Bytes) (out : String) : String :=
@@ -471,7 +496,12 @@ def specStep (st : OState) (line : String) : OState × String :=
           if refused then (if out.startsWith "throw" then { ws := some defaultWrites } else bare, "unspecified")
           else
             let live := !decide (F.inert S)
-            ({ bare with ws := some fs, frame := F, live := live }, if live then checkLive F (plOf out) m out else checkLine F m out)
+            let two := if live && F.k == 1 && stdNsAfter F.hb == 0 then
+                (decodeLayout2 S (b.drop 4)).map (fun r => (r.2.2.1, r.2.2.2)) else none
+            ({ bare with ws := some fs, frame := F, live := live, last := two },
+             match two with
+             | some (fsK, rest) => checkTwo F fsK rest m out
+             | none => if live then checkLive F (plOf out) m out else checkLine F m out)
         | none =>
           -- a refused parse leaves the default header the harness constructed before it
           (if out.startsWith "throw" then { ws := some defaultWrites } else bare, "unspecified")
@@ -483,7 +513,8 @@ def specStep (st : OState) (line : String) : OState × String :=
           let ws' := ws ++ [(b, v)]
           let m := lastWrite FMap.empty ws'
           let st' := { st with ws := some ws', pl := plOf out }
-          if st.live then
+          if let some (fsK, rest) := st.last then (st', checkTwo st.frame fsK rest m out)
+          else if st.live then
             let r := checkLive st.frame st.pl m out
             -- the foreign bytes the next call starts from are the ones the object holds now
             let F' := match (plOf out).bind (decodeLayout S) with
@@ -500,7 +531,8 @@ def specStep (st : OState) (line : String) : OState × String :=
           let ws' := ws ++ [(b, v)]
           let m := lastWrite FMap.empty ws'
           let st' := { st with ws := some ws', pl := plOf out }
-          if st.live then
+          if let some (fsK, rest) := st.last then (st', checkTwo st.frame fsK rest m out)
+          else if st.live then
             let r := checkLive st.frame st.pl m out
             let F' := match (plOf out).bind (decodeLayout S) with
               | some (F2, _) => { st.frame with tail := F2.tail }
